@@ -10,6 +10,7 @@ import (
 	"os"
 	"path/filepath"
 	"strings"
+	"sync"
 	"testing"
 
 	"github.com/nspcc-dev/neo-go/pkg/core/transaction"
@@ -27,8 +28,58 @@ import (
 // All three write Coq cases compared with Model/DeployHelpers.v and
 // Model/DeployProto.v (cases_C13.v, cases_C13_<k>.v).
 
+// c13Abort is what a failed assertion inside a scenario panics with.
+type c13Abort struct{ msg string }
+
+// c13TB is the testing.TB handed to everything a scenario calls (neotest
+// helpers and require included): a failed assertion does not end the Go test,
+// it aborts the scenario (panic, recovered by c13Guard), which is then recorded
+// as a violation with its schedule; the remaining scenarios still run.
+type c13TB struct {
+	testing.TB
+	mu   sync.Mutex
+	msgs []string
+}
+
+func (t *c13TB) Errorf(format string, args ...any) {
+	t.mu.Lock()
+	t.msgs = append(t.msgs, strings.Join(strings.Fields(fmt.Sprintf(format, args...)), " "))
+	t.mu.Unlock()
+}
+func (t *c13TB) Error(args ...any)                 { t.Errorf("%s", fmt.Sprint(args...)) }
+func (t *c13TB) Fatalf(format string, args ...any) { t.Errorf(format, args...); t.FailNow() }
+func (t *c13TB) Fatal(args ...any)                 { t.Error(args...); t.FailNow() }
+func (t *c13TB) Fail()                             {}
+func (t *c13TB) Failed() bool                      { return false }
+func (t *c13TB) Helper()                           {}
+func (t *c13TB) FailNow() {
+	t.mu.Lock()
+	m := strings.Join(t.msgs, "; ")
+	t.msgs = nil
+	t.mu.Unlock()
+	if len(m) > 600 {
+		m = m[:600]
+	}
+	panic(c13Abort{m})
+}
+
+// c13Guard runs one scenario; whatever goes wrong inside becomes a violation.
+func c13Guard(c *c13, name string, replay func() any, f func()) {
+	defer func() {
+		if r := recover(); r != nil {
+			msg := fmt.Sprint(r)
+			if a, ok := r.(c13Abort); ok {
+				msg = a.msg
+			}
+			c.st.OutcomeHistogram["scenario-aborted"]++
+			c.st.AddViolation("scenario could not be completed ("+name+"): "+msg, replay())
+		}
+	}()
+	f()
+}
+
 type c13 struct {
-	t     *testing.T
+	t     testing.TB
 	st    *Stats
 	cases []string
 	seen  map[string]bool // distinct case texts
@@ -418,8 +469,8 @@ func c13Helpers(c *c13) {
 
 func TestC13(t *testing.T) {
 	st := NewStats("C13")
-	c := &c13{t: t, st: st, seen: map[string]bool{}}
-	c13Helpers(c)
+	c := &c13{t: &c13TB{TB: t}, st: st, seen: map[string]bool{}}
+	c13Guard(c, "pure helpers", func() any { return nil }, func() { c13Helpers(c) })
 	extraDefs, extraM := c13Bootstrap(c)
 	if os.Getenv("VERIF_C13_NO_E2E") == "" {
 		d2, m2 := c13EndToEnd(c)
@@ -461,5 +512,8 @@ func TestC13(t *testing.T) {
 	st.DistinctNontrivial = c.nontr
 	st.Rule = "distinct (helper, input, observed output) cases written to cases_C13.v, not counting divide cases with no callback and refused window cases; plus distinct notary-bootstrap runs (committee size, live set, schedule) that sent at least one transaction, plus end-to-end deploy.Deploy runs in which every member returned nil"
 	st.Write()
-	require.Empty(t, st.Violations)
+	// violations are judged by ./check from the stats file; the Go test itself only reports them
+	if len(st.Violations) > 0 {
+		t.Logf("monitor violations: %d (first: %s)", len(st.Violations), st.Violations[0].What)
+	}
 }
